@@ -13,8 +13,25 @@ _cache = {}
 
 def build_replay(pid=None):
     """(re)build the replay crate against /repo's current working tree; returns path of the binary or None"""
-    if os.environ.get('VERIF_REPO', '/repo') != '/repo':
-        return None   # scratch source copies are not what the replay crate links against
+    scratch = os.environ.get('VERIF_REPO', '/repo')
+    if scratch != '/repo':
+        # development aid only (never used by a registered command): a scratch source tree gets a scratch COPY of the replay crate
+        # whose path dependencies point at that tree, built with this property's modules only into its own target directory
+        if not pid or not os.environ.get('VERIF_SCRATCH_REPLAY'):
+            return None
+        import shutil, hashlib
+        tag = hashlib.sha1(scratch.encode()).hexdigest()[:8]
+        cdir = '/tmp/vx-replay-scratch-%s' % tag
+        shutil.rmtree(cdir, ignore_errors=True)
+        shutil.copytree(REPLAY, cdir, ignore=shutil.ignore_patterns('target'))
+        ct = os.path.join(cdir, 'Cargo.toml')
+        txt = open(ct).read().replace('path = "/repo/', 'path = "%s/' % scratch.rstrip('/'))
+        open(ct, 'w').write(txt)
+        feats = ','.join(r.lower() for r in RIDS.get(pid, [pid]))
+        envs = dict(os.environ, CARGO_NET_OFFLINE='true', CARGO_INCREMENTAL='0', CARGO_TARGET_DIR='/tmp/vx-replay-scratch-target-%s' % tag)
+        p = subprocess.run(['timeout', '1500', 'cargo', 'build', '--offline', '--quiet', '--no-default-features', '--features', feats], cwd=cdir, env=envs,
+                           stdout=subprocess.PIPE, stderr=subprocess.STDOUT, text=True)
+        return os.path.join(envs['CARGO_TARGET_DIR'], 'debug', 'vx-replay') if p.returncode == 0 else None
     lock_src, lock_dst = '/repo/Cargo.lock', os.path.join(REPLAY, 'Cargo.lock')
     try:
         if not os.path.exists(lock_dst):
@@ -65,7 +82,9 @@ BOUNDED = {
     'C05': dict(what='the REAL OrderBook / OrderBookSide against a BTreeMap model after every event of crafted and seeded random snapshot / update sequences: levels equal the map, '
                      'best-first, no duplicate prices, mid / volume-weighted mid price, snapshot(depth) for every depth on asymmetric books (0..4 x 0..4 levels, empty and '
                      'one-level sides), worst level re-priced then deleted; WIDE updates (21..300 levels a side, beyond the insertion-sort regime of sort_unstable) with a price '
-                     'repeated at the front / middle / back and random wide updates over few prices: the last entry of a price decides',
+                     'repeated at the front / middle / back and random wide updates over few prices: the last entry of a price decides; the consumer loop: streams for two managed books '
+                     '(plus a non-configured instrument and Reconnecting notices) with increasing / repeated / restarting sequence numbers through the REAL OrderBookL2Manager::run, '
+                     'each managed book compared with its map after every item',
                 bound={'quick': '~120k cases', 'thorough': '~300k cases'}),
     'C09': dict(what='the REAL EngineState (2 exchanges, 3 instruments, 5 assets, same names on both exchanges) through update_from_account / update_from_market: six sets of 2-5 '
                      'timestamped updates (distinct, tied, repeated values) delivered in every sequence with repetition up to a length bound, streamed or inside full account '
@@ -111,7 +130,8 @@ BOUNDED = {
     'C03': dict(what='engine scenarios on the REAL Engine (3 exchanges, 6 instruments; execution links healthy / closed / missing incl. a missing link at a lower '
                      'exchange index and tx maps built by the real ExecutionBuilder; scripted strategy; risk manager refusing a chosen cid set): requests reported '
                      'sent are delivered exactly once to the named exchange and marked in flight; failed ones carry a (fatal where due) error, no mark, nothing '
-                     'delivered; refused ones never delivered; no strategy requests while disabled, commands still actioned, generation resumes on the re-enabling event',
+                     'delivered; refused ones never delivered; no strategy requests while disabled, commands still actioned, generation resumes on the re-enabling event; '
+                     'requests REUSING the client order id of a confirmed-open / cancel-in-flight order are shown in flight once sent',
                 bound={'quick': 'crafted programmes over 27 link configurations + ~10k seeded random histories', 'thorough': '~200k seeded random histories'}),
     'C10': dict(what='event histories through the REAL sync_run_with_audit + StateReplicaManager (incl. fatal-error records from a closed link): one record per event, '
                      'consecutive sequence numbers, terminal final record; replica state equals engine state (orders modulo in-flight markers) after every prefix; '
